@@ -474,6 +474,36 @@ def rule_r12_bind_args(text, binds, applied):
     return text
 
 
+def rule_r13_map_err(text, enabled, applied):
+    """`RECV.map_err(|_| E)` -> `match RECV { Ok(v) => Ok(v), Err(_) => Err(E) }`: the definition of Result::map_err
+    for a closure that ignores its argument (Verus rejects `_` closure parameters and has no spec for map_err)"""
+    if not enabled:
+        return text
+    n = 0
+    while True:
+        st = _lex(text)
+        hit = None
+        for i, t in enumerate(st):
+            if (t.kind == 'ident' and t.text == 'map_err' and i > 0 and st[i - 1].text == '.' and st[i + 1].text == '('
+                    and st[i + 2].text == '|' and st[i + 3].text == '_' and st[i + 4].text == '|'):
+                hit = i
+                break
+        if hit is None:
+            return text
+        i = hit
+        n += 1
+        close = match_forward(st, i + 1)
+        j = _receiver_start(st, i, 'R13')
+        recv = text[st[j].start:st[i - 1].start].rstrip()
+        last = close - 1
+        if st[last].text == ',':
+            last -= 1
+        body = text[st[i + 5].start:st[last].end]
+        new = f'match {recv} {{ Ok(__ok{n}) => Ok(__ok{n}), Err(_) => Err({body}) }}'
+        text = text[:st[j].start] + new + text[st[close].end:]
+        applied.append(f'R13(map_err#{n})')
+
+
 def rule_r11_unshadow(text, unshadows, applied):
     """alpha-renaming: a local `let [mut] X = X;` that shadows parameter X is renamed (the local and every later use),
     so that contracts can mention the parameter (Verus relates recursive calls to the measure at function entry)"""
@@ -907,7 +937,7 @@ def new_fn_spec(attrs):
         'id': attrs['id'], 'file': attrs['file'], 'name': attrs['name'], 'container': attrs.get('in'),
         'props': [p for p in attrs.get('props', '').split(',') if p],
         'ret': None, 'requires': [], 'ensures': [],  # ensures: list of {'label','props','lines'}
-        'loops': {}, 'folds': {}, 'closures': {}, 'ats': [], 'hoist': [], 'lettypes': {}, 'breaktypes': {}, 'desugar_for': [], 'adapters': {}, 'mapcollects': {}, 'tupleclones': [], 'extendmaps': False, 'lifts': [], 'unshadows': [], 'bindargs': [], 'container_extra': [], 'attrs': [],
+        'loops': {}, 'folds': {}, 'closures': {}, 'ats': [], 'hoist': [], 'lettypes': {}, 'breaktypes': {}, 'desugar_for': [], 'adapters': {}, 'mapcollects': {}, 'tupleclones': [], 'extendmaps': False, 'lifts': [], 'unshadows': [], 'bindargs': [], 'maperr': False, 'container_extra': [], 'attrs': [],
         'recommends': [], 'decreases': [], 'stub_only': attrs.get('stub') == 'only', 'trusted_reason': attrs.get('trusted'),
     }
 
@@ -1005,6 +1035,9 @@ def parse_spec_file(path):
             sect = a['lines']
         elif kw == 'hoist':
             cur['hoist'] += pos
+            sect = None
+        elif kw == 'maperr':
+            cur['maperr'] = True
             sect = None
         elif kw == 'bindargs':
             # //@bindargs "recv.f(" K vars="name1: Type1; name2: Type2"
@@ -1152,6 +1185,7 @@ class Generator:
                 text, hoisted = rule_r4_hoist(text, spec['hoist'], applied)
             text = rule_r11_unshadow(text, spec['unshadows'], applied)
             text = rule_r12_bind_args(text, spec['bindargs'], applied)
+            text = rule_r13_map_err(text, spec['maperr'], applied)
             text = rule_r10_lift_closure(text, spec['lifts'], applied)
             text = rule_r2_fold(text, spec['folds'], applied)
             text = rule_r7_adapters(text, spec['adapters'], applied)
@@ -1236,6 +1270,8 @@ class Generator:
         text, line = s.find_item(item['kind'], item['name'])
         if item['kind'] == 'struct':
             text = publicize_fields(text)
+        # attributes of derive macros that were dropped with the derive (thiserror's display text)
+        text = re.sub(r'#\[error\([^\]]*\)\]\s*', '', text)
         hdr = ''
         if item['derive']:
             hdr += f"#[derive({item['derive']})]\n"
